@@ -537,7 +537,7 @@ impl<'c, W: WorldDriver> Session<'c, W> {
                 if dup {
                     let wrapped = self.cfg.wrapping && self.sims[si].archs[a].max_gen_seen == u32::MAX;
                     if !wrapped {
-                        return Err(self.fail(&["C08"], "handle-reissued", format!("create on {} returned handle {:?} which this world already issued earlier", self.infos[a].name, raw)));
+                        return Err(self.fail(&["C08", "C01"], "handle-reissued", format!("create on {} returned handle {:?} which this world already issued earlier", self.infos[a].name, raw)));
                     }
                     self.label("wrap_reuse");
                 }
